@@ -53,10 +53,8 @@ ConservedOK(p, s, i, r, eps) == Near(s + i + r, p.N, eps)
 NoRecoveredInSIS(p, r) == ~p.sir => r = 0
 RowOK(p, s, i, r, eps) == BoundsOK(p, s, i, r, eps) /\ ConservedOK(p, s, i, r, eps) /\ NoRecoveredInSIS(p, r)
 
-\* a = what left S, b = what left I, read off two consecutive rows
-OutOfS(p, s, i, r, s2, i2, r2) == IF p.sir THEN s - s2 ELSE i2 - i   \* SIS: net flow S -> I
-OutOfI(p, s, i, r, s2, i2, r2) == IF p.sir THEN r2 - r ELSE 0
-
+\* Between two consecutive rows (s,i,r) -> (s2,i2,r2) the flows are read off the rows:
+\* SIR: a = s - s2 (left S), b = r2 - r (left I).  SIS: only the net flow c = i2 - i is observable.
 MonotoneSOK(p, s, s2, eps) == p.sir => s2 <= s + eps                  \* a >= -eps
 MonotoneROK(p, r, r2, eps) == p.sir => r2 >= r - eps                  \* b >= -eps
 BalanceOK(p, s, i, r, s2, i2, r2, eps) ==                             \* I' = I + a - b
